@@ -44,7 +44,9 @@ Definition s_add (s : state) (p : path) : res :=
   | Some f => if git_skips s f then RErr s
               else ROk (with_index s (idx_set (drop_conflicts (st_index s) p) (git_entry s (st_index s) f)))
   | None =>
-    if is_dir_wt s p then
+    (* "pathspec is beyond a symbolic link" *)
+    if existsb (fun f => is_link (wf_mode f) && under (wf_path f) p) (st_wt s) then RErr s
+    else if is_dir_wt s p then
       (* every file below p ignored and untracked: "paths are ignored" *)
       if forallb (fun f => negb (under p (wf_path f)) || git_skips s f) (st_wt s)
          && negb (existsb (fun e => under p (ie_path e)) (st_index s)) then RErr s
